@@ -626,6 +626,11 @@ def do_check(check, tier, seed):
             zero_probes.append("static_init_contended")
         if agg.get("guard_aborts", 0) == 0:
             zero_probes.append("static_init_aborted")
+    if check == "C08":
+        for e, row in agg.get("c08_matrix", {}).items():
+            for d, n in row.items():
+                if n == 0 and d != "other":
+                    zero_probes.append("matrix[%s][%s]" % (e, d))
     if zero_probes and tier == "thorough" and exit_code == 0:
         # a silent blind spot is a machinery defect, not a pass (DESIGN §4)
         log("MACHINERY-ERROR: coverage probes at zero in the thorough tier: " + ", ".join(zero_probes))
@@ -670,6 +675,7 @@ def do_check(check, tier, seed):
             "ops_compared_with_canonical_schedule": agg.get("canonical_compared_ops", 0),
             "tsan_reports": agg.get("tsan_reports", 0),
             "probes": probes,
+            "entry_point_x_grid_difference": agg.get("c08_matrix", {}),
             "relevant_probes": RELEVANT_PROBES[check],
             "relevant_probes_at_zero": zero_probes,
             "runs_stopped_by_other_property": foreign_truncated,
